@@ -8,13 +8,14 @@ package vsym
 
 import (
 	"encoding/hex"
-	"encoding/pem"
 	"encoding/json"
+	"encoding/pem"
 	"fmt"
 	"os"
 	"path/filepath"
 	"runtime"
 	"strings"
+	"sync"
 )
 
 type model struct {
@@ -187,7 +188,33 @@ func Begin(roots ...interface{}) {}
 // write log; natively a no-op: replay of such a finding is by the race detector, see DESIGN.md C19).
 func AssertReadOnly(label string) {}
 
-func Observe(name string, v uint64)     { fmt.Printf("VSYM-OBS %s=%d\n", name, v) }
+// HashInjectiveAt instantiates collision resistance of the hash model at one index: two hash
+// applications made afterwards with equal digests have equal lengths and the same byte at index j.
+// (Natively SHA-256 is used and this does nothing.)
+func HashInjectiveAt(j int) {}
+
+// Concurrent names the read-only operations of a harness.  Under the executor it does nothing (the
+// operations have been run sequentially between Begin and AssertReadOnly, where the write set is
+// computed).  Natively it does nothing either, except in race-detector replays (VSYM_RACE=1, test
+// binary built with -race): then every operation runs twice, all from separate goroutines.
+func Concurrent(ops ...func()) {
+	if os.Getenv("VSYM_RACE") != "1" {
+		return
+	}
+	var wg sync.WaitGroup
+	for round := 0; round < 2; round++ {
+		for _, op := range ops {
+			wg.Add(1)
+			go func(op func()) {
+				defer wg.Done()
+				op()
+			}(op)
+		}
+	}
+	wg.Wait()
+}
+
+func Observe(name string, v uint64)      { fmt.Printf("VSYM-OBS %s=%d\n", name, v) }
 func ObserveBytes(name string, b []byte) { fmt.Printf("VSYM-OBS %s=%s\n", name, hex.EncodeToString(b)) }
 
 var _ = strings.TrimSpace
